@@ -332,6 +332,45 @@ def check_special(ctx, case):
             ctx.violation(f"Model.train(learn_every={case['learn_every']}, force_teachers={case['force_teachers']}), sender {case['position']}: at step {t} the receiver read "
                           f"{seen[t]} as feedback, expected the sender's output of step {t - 1} = {want[t]} (read {seen.tolist()}, sender emitted {sent.tolist()})",
                           case, obligation=ob)
+    elif case["kind"] == "submodel_sender_upstream":
+        # the sender is a SUB-MODEL (S1 >> T) whose entry S1 sits upstream of the receiver in the forward graph
+        # (src >> S1 >> R, T outside): R reads T(S1's output of step t-1); when feedback is forced on S1, T(forced value
+        # of step t-1), zero first. (Sub-model senders are outside the executable model; the stale value AFTER forced
+        # steps is finding K1 and is not exercised here.)
+        ks, kt = float(case["ks"]), float(case["kt"])
+
+        def run_case():
+            seen = []
+
+            def scale(k):
+                return Node(forward=lambda node, x: x * k, initializer=dim_init)
+
+            def recv(node, x):
+                seen.append(float(np.asarray(node.feedback()).ravel()[0]))
+                return x + 0.0
+            src, S1, T = scale(1.0), scale(ks), scale(kt)
+            R = Node(forward=recv, initializer=dim_init)
+            R <<= S1 >> T
+            m = src >> S1 >> R
+            X = np.arange(1.0, 1.0 + case["T"]).reshape(-1, 1)
+            m.run(X)
+            free = list(seen)
+            seen.clear()
+            F = X * 100.0
+            m.run(X, forced_feedbacks={S1.name: F})
+            return free, list(seen), X[:, 0].tolist(), F[:, 0].tolist()
+        r = common.exc_class(run_case)
+        if r[0] != "ok":
+            ctx.violation(f"a model whose feedback sender is a sub-model with an upstream entry raised {r[1]}", case, obligation=ob)
+            return
+        free, forced, X, F = r[1]
+        want_free = [0.0] + [kt * ks * v for v in X[:-1]]
+        want_forced = [0.0] + [kt * v for v in F[:-1]]
+        if not np.allclose(free, want_free):
+            ctx.violation(f"sub-model sender (entry upstream of the receiver), free run: the receiver read {free}, expected {want_free}", case, obligation=ob)
+        elif not np.allclose(forced, want_forced):
+            ctx.violation(f"sub-model sender (entry upstream of the receiver), feedback forced on its entry node: the receiver read {forced}, expected the "
+                          f"sub-model applied to the forced value of the previous step {want_forced}", case, obligation=ob)
     elif case["kind"] == "fit_run_fit_reset":
         # fit, run (the readout now emits something), fit again, then a run from reset states (or from given states): at
         # its first step the receiver must read the sender's state as installed - nothing left over from the fits
@@ -391,7 +430,7 @@ def check_special(ctx, case):
 
 
 def check_case(ctx, case):
-    if case.get("kind") in ("k1_submodel_sender", "k10_list_senders", "call_options", "train_learn_every", "fit_run_fit_reset"):
+    if case.get("kind") in ("k1_submodel_sender", "k10_list_senders", "call_options", "train_learn_every", "fit_run_fit_reset", "submodel_sender_upstream"):
         return check_special(ctx, case)
     common.quiet()
     _BUFS.clear()
@@ -532,6 +571,7 @@ def run(ctx):
         check_case(ctx, gen_case(g))
     for _ in range(ctx.n(12, 120)):
         check_case(ctx, {"kind": "call_options", "a": g.randint(1, 9), "b": g.randint(10, 19), "c": g.randint(20, 29), "v0": g.choice([42, -7, 0.5, 3])})
+        check_case(ctx, {"kind": "submodel_sender_upstream", "ks": g.choice([2, 3, 0.5]), "kt": g.choice([10, -4, 7]), "T": g.randint(4, 7)})
         check_case(ctx, {"kind": "fit_run_fit_reset", "T": g.randint(5, 9), "level": g.choice([7, -3, 2.5]), "how": g.choice(["run_reset", "model_reset", "from_state"]),
                          "v0": g.choice([42, -5, 0.5])})
         check_case(ctx, {"kind": "train_learn_every", "rule": g.choice(["lms", "rls"]), "position": g.choice(["upstream", "downstream", "side"]),
